@@ -1,9 +1,11 @@
 (** C12 - Proto-compatible mode emits standard protobuf and default mode can
-    read it.  PARTIAL: the structural facts below are proved for all codec
-    trees; that the whole output is accepted by a standard protobuf reader with
-    exact lengths is decided on the implementation by an independent wire
-    reader in the harness and will follow from the round-trip development. *)
-From Plenc Require Import Base Varint Wire JsonAny Codec Registry CorrCore ProtoProofs.
+    read it.  C12_wellformed / C12_standard_reader: the encoding of every
+    proto-mode struct is a well-formed standard protobuf message (a grammar with
+    wire types 0, 1, 2, 5 only and exact lengths) consisting of exactly the
+    expected fields, and a reader for the standard format accepts it.  PARTIAL:
+    the round trip in that mode is proved only where C01's theorem applies (not
+    the repeated / map-entry forms: correspondence); see C12_nested_refuted (D12). *)
+From Plenc Require Import Base Varint Wire JsonAny Codec SizeProofs Registry CorrCore ProtoProofs PbWf.
 Open Scope N_scope.
 
 Theorem C12_wire_types : forall c, proto_codec c = true ->
@@ -37,6 +39,38 @@ Theorem C12_switch_time_registration : forall pt,
   default_regs pt = firstn 21 (default_regs false) ++ [(TExt 0, [], CTime pt)].
 Proof. exact switch_time_registration. Qed.
 Print Assumptions C12_switch_time_registration.
+
+(** well-formed standard protobuf: the whole output of a proto-mode struct is a
+    sequence of fields with wire types 0 / 1 / 2 / 5 and exact lengths - and it
+    is exactly the fields [simg] lists: scalars as varints / fixed, strings,
+    bytes, nested structs, Timestamp times and packed scalar slices as one
+    length-delimited field, a repeated field as one frame per element, a map as
+    one key=1/value=2 entry message per entry, omitted fields absent *)
+Theorem C12_wellformed : forall nm n fs v,
+  pb_ok (CStruct nm n fs) = true -> Forall (fun f => idx_ok (f_index f)) fs ->
+  fits (CStruct nm n fs) v ->
+  pb_msg (enc (CStruct nm n fs) v []) (simg fs (struct_fields v)).
+Proof. exact struct_pb. Qed.
+Print Assumptions C12_wellformed.
+
+(** ... and a reader of the standard wire format (rejecting wire types 3, 4, 6,
+    7 and any inexact length) accepts it and returns those fields *)
+Theorem C12_standard_reader : forall data fs, pb_msg data fs ->
+  forall fuel, (length data < fuel)%nat -> pb_parse fuel data = Some fs.
+Proof. exact pb_parse_accepts. Qed.
+Print Assumptions C12_standard_reader.
+
+(** non-vacuity: a struct with a repeated field, a packed slice, a time and a
+    map meets the hypotheses, and the reader returns its fields *)
+Example C12_ex :
+  let c := CStruct [] 4 [mkfld 0 1 [] (CSliceProto CString); mkfld 1 2 [] (CSliceVar (CInt 64));
+                         mkfld 2 3 [] (CTime true); mkfld 3 4 [] (CMapProto CString (CUint 8))] in
+  let v := VStruct [VSlice [VStr [97]; VStr []]; VSlice [VInt 1; VInt (-1)]; VTime 5 7;
+                    VMap (Some [(VStr [107], VInt 3)])] in
+  pb_ok c = true /\
+  pb_parse 100 (enc c v []) =
+    Some [PBF 1 2 [97]; PBF 1 2 []; PBF 2 2 [2; 1]; PBF 3 2 [8; 5; 16; 7]; PBF 4 2 [10; 1; 107; 16; 3]].
+Proof. vm_compute. split; reflexivity. Qed.
 
 (** the full round trip is false where a repeated field is nested inside
     another (known finding D12) *)
